@@ -282,14 +282,21 @@ func (p *Parser) parseBetweenExpression(left Expression) Expression {
 		Range: [2]Expression{},
 	}
 
-	p.nextToken()
+	// both bounds have to be operands
+	if !p.expectPeek(IDENT) {
+		return nil
+	}
+
 	expression.Range[0] = p.parseIdentifier()
 
 	if !p.expectPeek(AND) {
 		return nil
 	}
 
-	p.nextToken()
+	if !p.expectPeek(IDENT) {
+		return nil
+	}
+
 	expression.Range[1] = p.parseIdentifier()
 
 	return expression
